@@ -269,3 +269,155 @@ class ScriptedBackend(TrialBackend):
             res.append(TrialResult(trial_id=t, config=tr.config, creation_time=tr.creation_time,
                                    metrics=list(self.metrics.get(t, [])), status=self.shown.get(t, Status.in_progress)))
         return res
+
+
+# ============================================================================ real file layer
+
+class _FakeProcess:
+    """stands in for subprocess.Popen: LocalBackend only uses poll() and kill()"""
+
+    def __init__(self):
+        self.returncode = None
+
+    def poll(self):
+        return self.returncode
+
+    def kill(self):
+        if self.returncode is None:
+            self.returncode = -9
+
+
+def make_scripted_local_backend(chooser, spec, n_workers, profile=None, delete_checkpoints=False, fault_budget=0,
+                                late_results=True, faults=("crash",), log=None):
+    """ScriptedLocalBackend(LocalBackend): keeps the *real* file logic of LocalBackend - std.out written as tagged report
+    lines and read back through stdout()/retrieve, pause/stop marker files and _read_status, shutil checkpoint copy/delete,
+    busy-candidate bookkeeping - and only replaces subprocess.Popen by scripted workers (a ScriptedBackend instance used as
+    the worker simulator, never as the backend the Tuner talks to)."""
+    import json
+    import os
+    from syne_tune.backend.local_backend import LocalBackend
+    from syne_tune.report import _serialize_report_dict
+    from syne_tune.constants import ST_SAGEMAKER_METRIC_TAG
+    from .tunerx import scratch_dir
+
+    entry = os.path.join(scratch_dir(), "scripted_job.py")
+    if not os.path.exists(entry):
+        with open(entry, "w") as f:
+            f.write("# scripted\n")
+
+    class ScriptedLocalBackend(LocalBackend):
+        def __init__(self):
+            super().__init__(entry_point=entry, delete_checkpoints=delete_checkpoints, rotate_gpus=False)
+            self.sim = ScriptedBackend(chooser, spec, n_workers, profile=profile, delete_checkpoints=False,
+                                       fault_budget=fault_budget, late_results=late_results, faults=faults, log=log)
+            self.log = self.sim.log
+            self.written = {}
+            self._how = "stop"
+            self._in_stop_all = False
+
+        # attributes the monitors read
+        metrics = property(lambda self: self.sim.metrics)
+        truth = property(lambda self: self.sim.truth)
+        proc = property(lambda self: self.sim.proc)
+        spec = property(lambda self: self.sim.spec)
+        ckpt = property(lambda self: self.sim.ckpt)
+        deleted = property(lambda self: self.sim.deleted)
+
+        def _ckpt_file(self, t):
+            return self.checkpoint_trial_path(t) / "ckpt.json"
+
+        def _sync_files(self):
+            for t, lst in self.sim.metrics.items():
+                n0 = self.written.get(t, 0)
+                if len(lst) > n0:
+                    os.makedirs(self.trial_path(t), exist_ok=True)
+                    with open(self.trial_path(t) / "std.out", "a") as f:
+                        for m, (r, i, late) in zip(lst[n0:], self.sim.truth[t][n0:]):
+                            f.write(f"[{ST_SAGEMAKER_METRIC_TAG}]: {_serialize_report_dict(m)}\n")
+                            if not late:
+                                os.makedirs(self.checkpoint_trial_path(t), exist_ok=True)
+                                with open(self._ckpt_file(t), "w") as g:
+                                    json.dump({"level": m[self.sim.spec.resource_attr]}, g)
+                    self.written[t] = len(lst)
+            for t, p in self.sim.proc.items():
+                fp = self.trial_subprocess.get(t)
+                if fp is None:
+                    continue
+                if p == EXITED and fp.returncode is None:
+                    fp.returncode = 0
+                elif p == CRASHED and fp.returncode is None:
+                    fp.returncode = 1
+                elif p == EXTSTOPPED and fp.returncode is None:
+                    self._file_path(trial_id=t, filename="stop").touch()
+                    fp.returncode = -15
+
+        def _schedule(self, trial_id, config):
+            os.makedirs(self.trial_path(trial_id), exist_ok=True)
+            open(self.trial_path(trial_id) / "std.out", "a").close()
+            open(self.trial_path(trial_id) / "std.err", "a").close()
+            # the checkpoint *file* decides where the job continues
+            if self._ckpt_file(trial_id).exists():
+                self.sim.ckpt[trial_id] = int(json.load(open(self._ckpt_file(trial_id)))["level"])
+            else:
+                self.sim.ckpt.pop(trial_id, None)
+
+            class _T:
+                pass
+            stub = _T()
+            stub.config = config
+            stub.creation_time = env.DT0
+            self.sim._trial_dict[trial_id] = stub
+            self.sim._schedule(trial_id, config)
+            self.trial_subprocess[trial_id] = _FakeProcess()
+            self._busy_trial_id_candidates.add(trial_id)
+
+        def _all_trial_results(self, trial_ids):
+            if not self._in_stop_all:
+                self.sim._all_trial_results([t for t in trial_ids])
+                self._sync_files()
+            return super()._all_trial_results(trial_ids)
+
+        def _kill_process(self, trial_id):
+            self.sim._kill(trial_id, self._how)
+            self._sync_files()
+            super()._kill_process(trial_id)
+
+        def _pause_trial(self, trial_id, result):
+            self._how = "pause"
+            super()._pause_trial(trial_id, result)
+            self.sim.shown[trial_id] = Status.paused
+            if result is not None and self._ckpt_file(trial_id).exists() and self.sim.spec.resource_attr in result:
+                lvl = min(int(json.load(open(self._ckpt_file(trial_id)))["level"]), int(result[self.sim.spec.resource_attr]))
+                with open(self._ckpt_file(trial_id), "w") as g:
+                    json.dump({"level": lvl}, g)
+                self.sim.ckpt[trial_id] = lvl
+
+        def _stop_trial(self, trial_id, result):
+            self._how = "stop"
+            super()._stop_trial(trial_id, result)
+            self.sim.shown[trial_id] = Status.stopped
+
+        def _resume_trial(self, trial_id):
+            self.sim._resume_trial(trial_id)
+            super()._resume_trial(trial_id)
+
+        def copy_checkpoint(self, src_trial_id, tgt_trial_id):
+            exists = self.checkpoint_trial_path(src_trial_id).exists()
+            self.sim.log.append(("copy", src_trial_id, tgt_trial_id, exists, src_trial_id in self.sim.deleted))
+            super().copy_checkpoint(src_trial_id, tgt_trial_id)
+            self.sim.deleted.discard(tgt_trial_id)
+
+        def delete_checkpoint(self, trial_id):
+            self.sim.in_stop_all = self._in_stop_all
+            self.sim.delete_checkpoint(trial_id)
+            super().delete_checkpoint(trial_id)
+
+        def stop_all(self):
+            self._in_stop_all = True
+            self.sim.log.append(("stop_all",))
+            try:
+                super().stop_all()
+            finally:
+                self._in_stop_all = False
+
+    return ScriptedLocalBackend()
